@@ -33,7 +33,7 @@ fn gen_text(rng: &mut Rng) -> String {
     (0..n).map(|_| pool[rng.usize_below(pool.len())]).collect::<Vec<_>>().join("")
 }
 
-pub fn gen_stream(rng: &mut Rng, max_events: u64) -> Vec<u8> {
+pub fn gen_stream(rng: &mut Rng, odd: &mut Rng, max_events: u64) -> Vec<u8> {
     let crlf_stream = rng.chance(1, 3);
     let mixed = rng.chance(1, 10);
     let mut out: Vec<u8> = Vec::new();
@@ -82,6 +82,21 @@ pub fn gen_stream(rng: &mut Rng, max_events: u64) -> Vec<u8> {
                 10 => (Some("mismatch".into()), json!({"type": "response.output_text.delta", "sequence_number": seqno, "item_id": "m", "output_index": 0, "content_index": 0, "delta": gen_text(rng), "logprobs": []}).to_string()),
                 _ => (None, json!({"type": "response.completed", "sequence_number": seqno, "response": {"id": "resp_1", "output": []}}).to_string()),
             }
+        };
+        // own sub-stream: 1 in 8 events is of a kind a decoder may be tempted to treat specially —
+        // keep-alives, errors, types it does not know, no type at all; each is one server-sent event
+        // and owes one provider-event frame like any other
+        let (name, data) = if !is_done && odd.chance(1, 8) {
+            match odd.below(6) {
+                0 => (None, json!({"type": "ping"}).to_string()),
+                1 => (Some("ping".to_string()), json!({"type": "ping", "sequence_number": seqno}).to_string()),
+                2 => (Some("keepalive".to_string()), "{}".to_string()),
+                3 => (Some("error".to_string()), json!({"type": "error", "sequence_number": seqno, "code": "server_error", "message": "upstream hiccup", "param": null}).to_string()),
+                4 => (None, json!({"type": "response.in_progress", "sequence_number": seqno, "response": {"id": "resp_1"}}).to_string()),
+                _ => (None, json!({"type": "x.vendor.extension", "anything": [1, 2, 3]}).to_string()),
+            }
+        } else {
+            (name, data)
         };
         if let Some(nm) = &name {
             if rng.chance(4, 5) {
@@ -134,7 +149,8 @@ pub fn gen_stream(rng: &mut Rng, max_events: u64) -> Vec<u8> {
 pub fn generate(run_seed: u64, tier: Tier) -> Scenario {
     let mut rng = Rng::derive(run_seed, "ops");
     let max_events = if tier == Tier::Quick { 4 } else { 8 };
-    let mut stream = gen_stream(&mut rng, max_events);
+    let mut odd = Rng::derive(run_seed, "c15:odd-types");
+    let mut stream = gen_stream(&mut rng, &mut odd, max_events);
     let cap = if tier == Tier::Quick { 420 } else { 1200 };
     if stream.len() > cap {
         // keep whole lines
